@@ -65,11 +65,31 @@ def make_matches(r, i, n):
     out = []
     for k in range(n):
         ds = pydicom.Dataset()
+        if r.random() < 0.12:
+            # a match with an empty identifier: transmitted without a data set
+            out.append((ds, r.choice([0xFF00, 0xFF01])))
+            continue
         ds.PatientName = 'MATCH^%d^%d' % (i, k)
         ds.PatientID = 'ID-%d-%d' % (i, k)
         ds.StudyDescription = 'x' * r.choice([0, 3, 40, 300])
         out.append((ds, r.choice([0xFF00, 0xFF00, 0xFF01])))
     return out
+
+
+def handler_results(matches, reuse):
+    """What on_receive_find hands to the provider: the matches themselves, or - the way a
+    'for row in cursor' application does - ONE data set object refilled for every match."""
+    import pydicom
+    if not reuse:
+        return iter(matches)
+
+    def gen():
+        shared = pydicom.Dataset()
+        for ds, st in matches:
+            shared.clear()
+            shared.update(ds)
+            yield shared, st
+    return gen()
 
 
 def pad_to_multiple(ds, enc, chunk):
@@ -111,11 +131,12 @@ def run_case(res, case, sigs, attempt=0):
     chunk = min(server_max, client_max) - 6
     exact = 0
     for ds, st in matches:
-        if r.random() < 0.3 and pad_to_multiple(ds, enc, chunk):
+        if len(ds) and r.random() < 0.3 and pad_to_multiple(ds, enc, chunk):
             exact += 1
     if r.random() < 0.2:
         pad_to_multiple(query, enc, chunk)
-    want = [(enc(ds), st) for ds, st in matches]
+    want = [(enc(ds) or None, st) for ds, st in matches]
+    reuse = r.random() < 0.3
     res.evaluations += 1 if not attempt else 0
     res.distinct.add('%s|%d|%s|%s|%d|%d' % (variant, n, ''.join(str(s & 1) for _, s in matches), ts[-1],
                                             server_max, client_max))
@@ -134,7 +155,7 @@ def run_case(res, case, sigs, attempt=0):
                 class Server(tcpnet.TapServerMixin, applicationentity.AE):
                     def on_receive_find(self, context, ds):
                         seen_queries.append(enc(ds))
-                        return iter(matches)
+                        return handler_results(matches, reuse)
                 server = Server('FINDSCP', 0, supported_ts=[ts], max_pdu_length=server_max)
                 server.net = net
                 server.timeout = 5
